@@ -191,6 +191,70 @@ func expandFact(f Fact, depth int) []Fact {
 	return out
 }
 
+// factAlternatives: a disjunctive fact — a phi of `a || b` that is true (or of `a && b` that is false), as go/ssa
+// produces when the expression is a switch case or is assigned rather than branched on. The result has one fact
+// list per way the phi can have had that outcome (one per incoming edge that can carry it); nil when f is not
+// such a phi.
+func factAlternatives(f Fact) [][]Fact {
+	phi, ok := f.Cond.(*ssa.Phi)
+	if !ok || len(phi.Edges) < 2 {
+		return nil
+	}
+	if b, isB := phi.Type().Underlying().(*types.Basic); !isB || b.Kind() != types.Bool {
+		return nil
+	}
+	var alts [][]Fact
+	for i, e := range phi.Edges {
+		pred := phi.Block().Preds[i]
+		if b, ok := constBool(e); ok {
+			if b != f.Truth {
+				continue
+			}
+			alts = append(alts, append(append([]Fact{}, factsAt(pred)...), factsAtEdgeTo(pred, phi.Block())...))
+			continue
+		}
+		c, truth := stripNot(e, f.Truth)
+		fs := append(append([]Fact{}, factsAt(pred)...), factsAtEdgeTo(pred, phi.Block())...)
+		fs = append(fs, expandFact(Fact{Cond: c, Truth: truth, If: f.If}, 1)...)
+		alts = append(alts, fs)
+	}
+	if len(alts) < 2 {
+		return nil
+	}
+	return alts
+}
+
+// someFact: test holds for one of the facts, or — for a disjunctive fact — in every one of its alternatives.
+func someFact(facts []Fact, test func(Fact) bool) bool { return someFactD(facts, test, 0) }
+
+func someFactD(facts []Fact, test func(Fact) bool, depth int) bool {
+	for _, f := range facts {
+		if test(f) {
+			return true
+		}
+	}
+	if depth > 3 {
+		return false
+	}
+	for _, f := range facts {
+		alts := factAlternatives(f)
+		if alts == nil {
+			continue
+		}
+		all := true
+		for _, alt := range alts {
+			if !someFactD(alt, test, depth+1) {
+				all = false
+				break
+			}
+		}
+		if all {
+			return true
+		}
+	}
+	return false
+}
+
 // factsAtEdge returns the facts that hold when control flows along the edge
 // from -> from.Succs[k] (facts at `from` plus the branch outcome itself).
 func factsAtEdge(from *ssa.BasicBlock, k int) []Fact {
